@@ -651,6 +651,10 @@ class FuncAnalysis:
             return [i.context_expr for i in a.items]
         if n.kind == "handler":
             return [a.type] if a.type is not None else []
+        if isinstance(a, FuncNode):
+            return list(a.decorator_list) + list(a.args.defaults) + [d for d in a.args.kw_defaults if d is not None]
+        if isinstance(a, ast.ClassDef):
+            return list(a.decorator_list) + list(a.bases)
         return [a]
 
     def calls_at(self, n: Node) -> List[ast.Call]:
